@@ -137,8 +137,16 @@ def run(ctx, f, rep):
     shut = trait_impls(f, "SocketBackend", "shutdown")
     rep.floor("R17.3", "SocketBackend::shutdown impls", len(shut), 6)
     for ty, b in sorted(shut.items()):
-        clears = [fn for bb, t, fn in b.calls() if fn and fn["name"] in ("clear_sync", "clear_async", "clear", "retain_sync") and "scc" in fn["path"]]
-        rep.check(bool(clears), "R17.3", "R17.3|%s|shutdown-clears-table" % ty, "%s::shutdown clears the peer table (drops every write half)" % ty, b.loc())
+        # on EVERY path that returns (an early exit for a backend without a receive queue must not skip it)
+        npaths = 0
+        every = True
+        for p in pathq.paths(f, b):
+            if p.end != "return":
+                continue
+            npaths += 1
+            if not [ev for i, ev in pathq.calls(p, "clear_sync", "clear_async", "clear") if "scc" in ev.name]:
+                every = False
+        rep.check(every and npaths > 0, "R17.3", "R17.3|%s|shutdown-clears-table" % ty, "%s::shutdown clears the peer table (drops every write half) on every path (%d)" % (ty, npaths), b.loc())
         # the read halves live in the receive queue shared with handshake tasks and with the streams' own wakers: a backend that
         # has such a queue must empty it in shutdown(), on every path where the queue exists
         has_queue = any(a for p_, a in f.adts.items() if p_.endswith("::" + ty.split("::")[-1]) and any("QueueInner" in x["ty"] for x in a["variants"][0]["fields"]))
